@@ -23,18 +23,24 @@ CONSTANTS TraceFile
 
 Trace == ndJsonDeserialize(TraceFile)
 
-VARIABLES l, linked, declared
+VARIABLES l, linked, declared,
+          latch      \* "eof" once a Read has reported the end of the stream: from then on WriteTo at the end reports
+                     \* it too (wrapped with the state name), otherwise WriteTo at the end says (0, nil); cleared
+                     \* by Reset - "Reset makes the object indistinguishable from a new one" (C17)
 
-tvars == <<rvars, l, linked, declared>>
+tvars == <<rvars, l, linked, declared, latch>>
 
-TraceInit == InitWith(0) /\ l = 1 /\ linked = FALSE /\ declared = <<0, 0, 0, 0>>
+TraceInit == InitWith(0) /\ l = 1 /\ linked = FALSE /\ declared = <<0, 0, 0, 0>> /\ latch = "none"
 
 Ev(e) == l <= Len(Trace) /\ Trace[l].ev = e /\ l' = l + 1
 
-TrNew == Ev("rnew") /\ Reset(Trace[l].total) /\ linked' = Trace[l].linked /\ declared' = Trace[l].declared
+TrNew == Ev("rnew") /\ Reset(Trace[l].total) /\ linked' = Trace[l].linked /\ declared' = Trace[l].declared /\ latch' = "none"
 
 TrCall ==
     /\ Ev("rcall") /\ UNCHANGED <<linked, declared>>
+    /\ latch' = (CASE Trace[l].op = "read" /\ Trace[l].err = "eof" -> "eof"
+                   [] Trace[l].op = "reset" -> "none"
+                   [] OTHER -> latch)
     /\ LET r == Trace[l]
        IN  CASE r.op = "read" ->
                   \/ /\ Read(r.sz)
@@ -45,7 +51,7 @@ TrCall ==
              [] r.op = "writeto" ->
                   \/ WriteTo /\ r.n = total - delivered /\ r.err = "none"
                   \/ WriteToLate /\ r.err \notin {"none", "eof"}
-                  \/ WriteToAtEnd /\ r.n = 0 /\ r.cons = 0
+                  \/ WriteToAtEnd /\ r.n = 0 /\ r.cons = 0 /\ r.err = (IF latch = "eof" THEN "eof-wrapped" ELSE "none")
                   \/ InError /\ r.n = 0 /\ r.err \notin {"none", "eof"}
              [] r.op = "size" ->
                   /\ UNCHANGED rvars
@@ -58,18 +64,18 @@ TrCall ==
              [] r.op = "reset" -> Reset(total)
 
 TrAll ==
-    /\ Ev("rall") /\ UNCHANGED <<linked, declared>>
+    /\ Ev("rall") /\ UNCHANGED <<linked, declared>> /\ latch' = "eof"
     /\ rs \in {"new", "read"}
     /\ Trace[l].n = total - delivered /\ Trace[l].err = "eof"
     /\ delivered' = total /\ rs' = "closed" /\ UNCHANGED <<total, window>>
 
 TrBlock ==
-    /\ Ev("rblock") /\ UNCHANGED <<linked, declared>>
+    /\ Ev("rblock") /\ UNCHANGED <<linked, declared, latch>>
     /\ IF linked THEN BlockDone(Trace[l].b) /\ window' = Trace[l].dict
        ELSE Trace[l].dict = 0 /\ UNCHANGED rvars
 
 TrEnd ==
-    /\ Ev("rend") /\ UNCHANGED <<rvars, linked, declared>>
+    /\ Ev("rend") /\ UNCHANGED <<rvars, linked, declared, latch>>
     /\ Trace[l].prefixok                       \* whatever was delivered is a prefix of the content
     /\ Trace[l].clean                          \* no panic, no call that did not return
     /\ rs = "closed" => Trace[l].same /\ delivered = total
